@@ -158,17 +158,18 @@ impl Execution {
             };
 
             if let Some(access) = self.objects.last_dependent_access(operation) {
-                if access.happens_before(&th.dpor_vv) {
-                    // The previous access happened before this access, thus
-                    // there is no race.
-                    continue;
+                // If the previous access happened before this access, there
+                // is no race.
+                if !access.happens_before(&th.dpor_vv) {
+                    // Track backtracking point
+                    self.path.backtrack(access.path_id(), th_id);
                 }
+            }
 
-                // Get the point to backtrack to
-                let point = access.path_id();
-
-                // Track backtracking point
-                self.path.backtrack(point, th_id);
+            for access in self.objects.dependent_loads(operation).iter().flatten() {
+                if !access.happens_before(&th.dpor_vv) {
+                    self.path.backtrack(access.path_id(), th_id);
+                }
             }
         }
 
@@ -252,10 +253,18 @@ impl Execution {
                 threads.active_mut().dpor_vv.join(access.version());
             }
 
+            for access in self.objects.dependent_loads(operation).iter().flatten() {
+                threads.active_mut().dpor_vv.join(access.version());
+            }
+
             threads.active_mut().dpor_vv[th_id] += 1;
 
-            self.objects
-                .set_last_access(operation, path_id, &threads.active().dpor_vv);
+            self.objects.set_last_access(
+                operation,
+                th_id.as_usize(),
+                path_id,
+                &threads.active().dpor_vv,
+            );
         }
 
         // Reactivate yielded threads, but only if the current active thread is
